@@ -53,6 +53,7 @@ fn main() {
         Some("C10") => std::process::exit(props::c10::run(&report::parse_args(&args[1..]))),
         Some("C11") => std::process::exit(props::c11::run(&report::parse_args(&args[1..]))),
         Some("C12") => std::process::exit(props::c12::run(&report::parse_args(&args[1..]))),
+        Some("C02") => std::process::exit(props::c02::run(&report::parse_args(&args[1..]))),
         Some("C13") => std::process::exit(props::c13::run(&report::parse_args(&args[1..]))),
         _ => {
             eprintln!("usage: vdrive <cmd> ..");
